@@ -15,7 +15,7 @@ What is *not* modelled but abstracted:
   every run;
 * operation constructors are the identity on the stored parameter list `op.p` (the writers emit all of
   `op.p`), except `Fouriergate`, whose constructor takes no argument and fixes `p = [π/2]`;
-* parsing an expression string (`parameters.par_from_str`, SymPy) is a table `P : String → Option Sym`
+* parsing an expression string (`parameters.par_from_str`, SymPy) is a table `P : String → Option ISym`
   handed to the readers (what SymPy returns for the strings of the IR at hand).
 
 Core Lean only (no Mathlib).
@@ -71,6 +71,61 @@ def Sym.noVal (e : Sym) : Sym := { e with val := none }
 decomposition product `0.72 - 0.5*pi`): `par_evaluate` always succeeds on it -/
 def constVal (e : Sym) : Option Sc := if e.meas = [] ∧ e.frees = [] then e.val else none
 
+/-! ### subsystem indices in symbol names
+
+SymPy symbols carry *names*; `MeasuredParameter(q[i])` is named `"q" + str(i)` and `par_convert` goes back from
+the name to the subsystem (`re.fullmatch("q[0-9]+", name)`, `int(name[1:])`).  Decimal printing and parsing
+are modelled on digit lists. -/
+
+def digitChar (d : Nat) : Char := Char.ofNat (48 + d)
+
+/-- `str(n)` as a list of characters -/
+def printIndex (n : Nat) : List Char :=
+  if n < 10 then [digitChar n] else printIndex (n / 10) ++ [digitChar (n % 10)]
+decreasing_by omega
+
+def digitVal (c : Char) : Option Nat :=
+  if 48 ≤ c.toNat ∧ c.toNat ≤ 57 then some (c.toNat - 48) else none
+
+/-- `int(s)` for a string of ASCII digits, given the value of the digits read so far -/
+def parseFrom : Nat → List Char → Option Nat
+  | acc, [] => some acc
+  | acc, c :: cs => match digitVal c with
+    | some d => parseFrom (acc * 10 + d) cs
+    | none => none
+
+/-- `int(s)` for `s` matching `[0-9]+` (`none`: no match) -/
+def parseIndex : List Char → Option Nat
+  | [] => none
+  | cs => parseFrom 0 cs
+
+/-- the name of the measured parameter of subsystem `i` -/
+def qName (i : Nat) : String := String.ofList ('q' :: printIndex i)
+
+/-- `par_convert`: the subsystem a symbol name denotes, if it is `q<index>` -/
+def measuredIndex (name : String) : Option Nat :=
+  match name.toList with
+  | 'q' :: ds => parseIndex ds
+  | _ => none
+
+/-- an expression over plain SymPy symbols, as the IRs hold it (`RegRefTransform.expr`, the result of
+`par_from_str`): printed forms and the *names* of its symbols -/
+structure ISym where
+  pos : Face
+  neg : Face
+  names : List String
+  val : Option Sc := none
+deriving DecidableEq, Repr, Inhabited
+
+/-- the IR-side expression of an SF expression: measured parameters appear under their names `q<i>` -/
+def toI (e : Sym) : ISym := { pos := e.pos, neg := e.neg, names := e.meas.map qName ++ e.frees, val := e.val }
+
+/-- `par_convert`: symbols named `q<i>` become measured parameters of subsystem `i`, all others free
+parameters of that name -/
+def fromI (ie : ISym) : Sym :=
+  { pos := ie.pos, neg := ie.neg, meas := ie.names.filterMap measuredIndex,
+    frees := ie.names.filter fun s => (measuredIndex s).isNone, val := none }
+
 /-- the canonical loop variable `p_i` of a TDM program -/
 def loopSym (i : Nat) : Sym :=
   { pos := { text := "{p" ++ toString i ++ "}", plain := "p" ++ toString i, atom := true, loop := some i }
@@ -87,8 +142,8 @@ inductive Val
   | arr (shape : List Nat) (data : List Sc)
   /-- SymPy expression over SF parameters -/
   | sym (e : Sym)
-  /-- `blackbird.RegRefTransform` wrapping the expression -/
-  | rrt (e : Sym)
+  /-- an expression over plain symbols: `blackbird.RegRefTransform`, or what `par_from_str` returns -/
+  | rrt (e : ISym)
   /-- the string `"p<i>"` in a TDM IR -/
   | pname (i : Nat)
 deriving DecidableEq, Repr, Inhabited
@@ -204,7 +259,7 @@ def bbArg (tdm : Bool) : Val → Val
     match constVal e with
     | some v => .sc v                   -- a constant expression: its value
     | none =>
-      if e.meas ≠ [] then .rrt e          -- contains measured parameters: RegRefTransform
+      if e.meas ≠ [] then .rrt (toI e)    -- contains measured parameters: RegRefTransform
       else match tdm, e.pos.loop with
         | true, some i => .pname i        -- `str(p) == str(ar)` for a loop variable: its name
         | _, _ => .str e.pos.text         -- `str(a)`
@@ -250,7 +305,7 @@ def insertAsc (x : Nat) : List Nat → List Nat
 
 /-- text carries no state: a `RegRefTransform` read from text holds no value -/
 def textVal : Val → Val
-  | .rrt e => .rrt e.noVal
+  | .rrt e => .rrt { e with val := none }
   | v => v
 
 /-- what `blackbird.loads(bb.serialize())` returns for `bb`: the set of modes is recomputed from
@@ -261,15 +316,15 @@ def reparseBB (bb : BB) : BB :=
 
 /-- `par_convert` on one argument for a program with `n` subsystems -/
 def convert (n : Nat) : Val → Except Err Val
-  | .rrt e => if e.meas.all (· < n) then .ok (.sym e.noVal) else .error .indexError
+  | .rrt ie => if (fromI ie).meas.all (· < n) then .ok (.sym (fromI ie)) else .error .indexError
   | .sym e => if e.meas.all (· < n) then .ok (.sym e.noVal) else .error .indexError
   | v => .ok v
 
 /-- Blackbird `_expression`: a string that `par_from_str` parses (the harness-supplied table `P` answers
 only for strings containing a brace) is the expression it denotes, other arguments stay -/
-def bbExpr (P : String → Option Sym) : Val → Val
+def bbExpr (P : String → Option ISym) : Val → Val
   | .str s => match P s with
-    | some e => .sym e
+    | some e => .rrt e
     | none => .str s
   | v => v
 
@@ -299,14 +354,14 @@ def unPname : Val → Val
   | .pname i => .str ("p" ++ toString i)
   | v => v
 
-def fromBBOp (P : String → Option Sym) (n : Nat) (o : BBOp) : Except Err Cmd := do
+def fromBBOp (P : String → Option ISym) (n : Nat) (o : BBOp) : Except Err Cmd := do
   checkName o.op
   let args ← (o.args.map (bbExpr P ∘ unPname)).mapM (convert n)
   let kws ← convertKw n (o.kwargs.map fun kv => (kv.1, bbExpr P (unPname kv.2)))
   build o.op o.modes args kws false
 
 /-- `from_blackbird` -/
-def fromBB (P : String → Option Sym) (bb : BB) : Except Err Prog := do
+def fromBB (P : String → Option ISym) (bb : BB) : Except Err Prog := do
   let n := modeCount [bb.modes]
   let cmds ← bb.ops.mapM (fromBBOp P n)
   .ok { name := bb.name, n := n, target := bb.target, shots := bb.shots, cutoff := bb.cutoff,
@@ -317,21 +372,21 @@ def tdmArg : Val → Val
   | .pname i => .sym (loopSym i)
   | v => v
 
-def fromBBOpTdm (P : String → Option Sym) (n : Nat) (o : BBOp) : Except Err Cmd := do
+def fromBBOpTdm (P : String → Option ISym) (n : Nat) (o : BBOp) : Except Err Cmd := do
   checkName o.op
   let args ← (o.args.map (bbExpr P ∘ tdmArg)).mapM (convert n)
   let kws ← convertKw n (o.kwargs.map fun kv => (kv.1, bbExpr P (tdmArg kv.2)))
   build o.op o.modes args kws false
 
 /-- `from_blackbird_to_tdm`: `TDMProgram(max(bb.modes) + 1)` -/
-def fromBBTdm (P : String → Option Sym) (bb : BB) : Except Err Prog := do
+def fromBBTdm (P : String → Option ISym) (bb : BB) : Except Err Prog := do
   let n := modeCount [bb.modes]
   let cmds ← bb.ops.mapM (fromBBOpTdm P n)
   .ok { name := bb.name, n := n, target := bb.target, shots := bb.shots, cutoff := bb.cutoff,
         tdm := some { N := [n], params := bb.vars }, cmds := cmds }
 
 /-- `to_program` on a Blackbird program -/
-def toProgramBB (P : String → Option Sym) (bb : BB) : Except Err Prog :=
+def toProgramBB (P : String → Option ISym) (bb : BB) : Except Err Prog :=
   if bb.modes = [] then .error .valueError
   else if bb.tdm.isSome then fromBBTdm P bb else fromBB P bb
 
@@ -393,19 +448,19 @@ def toXIR (p : Prog) : XIR :=
 
 /-- XIR `_expression`: every string is an expression (`par_from_str`; a string SymPy cannot parse
 raises `SympifyError`, a `ValueError`) -/
-def xirExpr (P : String → Option Sym) : Val → Except Err Val
+def xirExpr (P : String → Option ISym) : Val → Except Err Val
   | .str s => match P s with
-    | some e => .ok (.sym e)
+    | some e => .ok (.rrt e)
     | none => .error .valueError
   | v => .ok v
 
 /-- positional argument in `from_xir`: strings are expressions, other iterables become arrays -/
-def xirReadArg (P : String → Option Sym) : Val → Except Err Val
+def xirReadArg (P : String → Option ISym) : Val → Except Err Val
   | .lst l => .ok (.arr [l.length] l)
   | .pname i => xirExpr P (.str ("p" ++ toString i))
   | v => xirExpr P v
 
-def fromXStmt (P : String → Option Sym) (n : Nat) (s : XStmt) : Except Err Cmd := do
+def fromXStmt (P : String → Option ISym) (n : Nat) (s : XStmt) : Except Err Cmd := do
   checkName s.name
   match s.params with
   | .kw [] => build s.name s.wires [] [] s.inverse
@@ -420,7 +475,7 @@ def fromXStmt (P : String → Option Sym) (n : Nat) (s : XStmt) : Except Err Cmd
     build s.name s.wires a [] s.inverse
 
 /-- `from_xir` -/
-def fromXIR (P : String → Option Sym) (x : XIR) : Except Err Prog :=
+def fromXIR (P : String → Option ISym) (x : XIR) : Except Err Prog :=
   if (x.stmts.map (·.wires)).flatten = [] then .error .valueError
   else do
     let n := modeCount (x.stmts.map (·.wires))
@@ -429,17 +484,17 @@ def fromXIR (P : String → Option Sym) (x : XIR) : Except Err Prog :=
           cutoff := x.cutoff, tdm := none, cmds := cmds }
 
 /-- an argument in `from_xir_to_tdm`: `p<i>` is the loop variable, other strings are expressions -/
-def xirReadArgTdm (P : String → Option Sym) (k : Nat) : Val → Except Err Val
+def xirReadArgTdm (P : String → Option ISym) (k : Nat) : Val → Except Err Val
   | .lst l => .ok (.arr [l.length] l)
   | .pname i => if i < k then .ok (.sym (loopSym i)) else .error .indexError
   | v => xirExpr P v
 
 /-- a keyword argument in `from_xir_to_tdm` (lists stay lists) -/
-def xirReadKwTdm (P : String → Option Sym) (k : Nat) : Val → Except Err Val
+def xirReadKwTdm (P : String → Option ISym) (k : Nat) : Val → Except Err Val
   | .pname i => if i < k then .ok (.sym (loopSym i)) else .error .indexError
   | v => xirExpr P v
 
-def fromXStmtTdm (P : String → Option Sym) (n k : Nat) (s : XStmt) : Except Err Cmd := do
+def fromXStmtTdm (P : String → Option ISym) (n k : Nat) (s : XStmt) : Except Err Cmd := do
   checkName s.name
   match s.params with
   | .kw [] => build s.name s.wires [] [] s.inverse
@@ -454,7 +509,7 @@ def fromXStmtTdm (P : String → Option Sym) (n k : Nat) (s : XStmt) : Except Er
     build s.name s.wires a [] s.inverse
 
 /-- `from_xir_to_tdm` -/
-def fromXIRTdm (P : String → Option Sym) (x : XIR) : Except Err Prog :=
+def fromXIRTdm (P : String → Option ISym) (x : XIR) : Except Err Prog :=
   match x.tdmN with
   | none => .error .valueError
   | some [] => .error .valueError
@@ -465,7 +520,7 @@ def fromXIRTdm (P : String → Option Sym) (x : XIR) : Except Err Prog :=
           tdm := some { N := N, params := x.consts }, cmds := cmds }
 
 /-- `to_program` on an XIR program -/
-def toProgramXIR (P : String → Option Sym) (x : XIR) : Except Err Prog :=
+def toProgramXIR (P : String → Option ISym) (x : XIR) : Except Err Prog :=
   if x.tdmN.isSome then fromXIRTdm P x else fromXIR P x
 
 /-! ### `_factor_out_pi` on a multiple `m · π/12` -/
